@@ -44,6 +44,35 @@ fn copies(p: &Packet, how: &str, bad: &mut Vec<(String, String)>) {
         (Err(_), Err(_)) => {}
         _ => bad.push((format!("{}|packet-clone-bytes", how), "clone serialises differently".into())),
     }
+    // clone_from into destinations that already hold something (EDNS data, records, nothing)
+    {
+        use simple_dns::rdata::{RData, A, OPT};
+        use simple_dns::{Name, ResourceRecord, CLASS};
+        let mut with_opt = Packet::new_reply(0x0d57);
+        *with_opt.opt_mut() = Some(OPT { opt_codes: vec![], udp_packet_size: 1400, version: 1 });
+        with_opt.additional_records.push(ResourceRecord::new(Name::new_unchecked("dst.example"), CLASS::CH, 7, RData::A(A { address: 9 })));
+        let mut with_records = Packet::new_query(0x0d58);
+        with_records.answers.push(ResourceRecord::new(Name::new_unchecked("dst.example"), CLASS::IN, 7, RData::A(A { address: 9 })));
+        for (which, dst) in [("edns", with_opt), ("records", with_records), ("empty", Packet::new_query(1))] {
+            let mut d = dst;
+            d.clone_from(p);
+            if observe(&d) != o {
+                bad.push((format!("{}|packet-clone_from|{}", how, which), format!("clone_from into a packet holding {} leaves {:?} (opt {:?}), source has opt {:?}", which, observe(&d).additional.len(), observe(&d).opt.is_some(), o.opt.is_some())));
+            }
+            match (p.build_bytes_vec(), d.build_bytes_vec()) {
+                (Ok(a), Ok(b)) if a == b => {}
+                (Err(_), Err(_)) => {}
+                _ => bad.push((format!("{}|packet-clone_from-bytes|{}", how, which), "clone_from copy serialises differently".into())),
+            }
+        }
+        for r in p.answers.iter().chain(p.additional_records.iter()).take(2) {
+            let mut d = ResourceRecord::new(Name::new_unchecked("dst.example"), CLASS::HS, 1, RData::A(A { address: 1 })).with_cache_flush(true);
+            d.clone_from(r);
+            if obs_rr(&d) != obs_rr(r) || d != *r {
+                bad.push((format!("{}|record-clone_from", how), format!("{:?} vs {:?}", obs_rr(&d), obs_rr(r))));
+            }
+        }
+    }
     if let Some(opt) = p.opt() {
         let oo = opt.clone().into_owned();
         if obs_opt(&oo) != obs_opt(opt) || oo != *opt || h(&oo) != h(opt) {
